@@ -27,6 +27,7 @@ TARGETS = ['SFModel.Props.C10']
 THEOREMS = [
     'SF.C10.equals_spec', 'SF.C10.equals_spec_blocks', 'SF.C10.equals_spec_axis', 'SF.C10.equals_spec_index',
     'SF.C10.equals_spec_series', 'SF.C10.equals_spec_bus', 'SF.C10.equals_spec_hierarchy_rows', 'SF.C10.equals_spec_hierarchy',
+    'SF.C10.equals_cache_sound', 'SF.C10.equals_cache_unsound_ids_counterexample',
     'SF.C10.equals_refl', 'SF.C10.equals_refl_series', 'SF.C10.equals_refl_axis', 'SF.C10.equals_refl_bus',
     'SF.C10.equals_refl_skipna_false_counterexample',
     'SF.C10.equals_symm', 'SF.C10.equals_symm_series', 'SF.C10.equals_symm_axis', 'SF.C10.equals_symm_bus',
@@ -43,8 +44,14 @@ PARTIAL = [
 ]
 CORR_ONLY = ['NumPy == / isna on one array (parameters veq / Cell.na of the model)',
              'IndexHierarchy: the real tree is canonical (what equals_spec_hierarchy assumes); the tree of the real object is what the model walks',
+             'the equal_pairs identity cache of IndexLevel.equals: proved sound in the model (equals_cache_sound: walkC = walk for ids that identify the Index '
+             'objects); the driver runs the cache-free walk, the REAL ids / object sharing (from_product, shared from_index_items, copies, selections) are '
+             'exercised by the oracle only (reference on label tuples + symmetry + HE contract)',
              'Python hash of a label respects == (NaN labels: finding C10-nan-label-hash)']
-RULE = ('pairs (and triples) of Index / IndexHierarchy / Series / Frame / Bus specs where the second is a one-point mutation '
+RULE = ('hierarchies are built through every route (from_labels, from_product, from_tree, from_index_items with distinct / one shared Index, '
+        'selection, level_add, copy, deepcopy) drawn independently for the two sides, depth 2 and 3, with the inner label mutated under the first / a middle / '
+        'the last outer label; '
+        'pairs (and triples) of Index / IndexHierarchy / Series / Frame / Bus specs where the second is a one-point mutation '
         'of the first (cell, cell->NaN on one/both sides, label, label order, dtype with equal values, 1 vs 1.0 vs True, name, '
         'axis name, class, block layout, shape), each under all 16 option sets in both directions; HE pairs additionally '
         'through ==, !=, hash, set and dict; thorough: all 256x256 pairs of 2x2 frames over {0, 1, NaN, None}; zero-column frames and HE containers with hierarchical axes included; '
@@ -53,7 +60,7 @@ TRUSTED = ['extraction of labels / column values / dtypes / names through the pu
            'reading TypeBlocks._blocks and IndexHierarchy._levels to feed the model with the real structure']
 ASSUMPTIONS = ['== on the generated cell types is an equivalence (ints, floats, bools, strs, None, datetime64)',
                'equal label tuples hash equal (Python); integers beyond 2**53 are not generated (float coercion of `.values` is C07)']
-BUDGET = {'quick': 60, 'thorough': 700}
+BUDGET = {"quick": 75, "thorough": 800}
 
 OPTS = [(n, d, c, s) for n in (0, 1) for d in (0, 1) for c in (0, 1) for s in (0, 1)]
 OPT_KW = [dict(compare_name=bool(n), compare_dtype=bool(d), compare_class=bool(c), skipna=bool(s)) for n, d, c, s in OPTS]
@@ -86,9 +93,13 @@ def rand_axis(rng, n, kinds=('int', 'str', 'float', 'object', 'date', 'ih', 'ih'
     name = rng.choice(NAMES)
     if k == 'ih' and n >= 1:
         depth = rng.choice([2, 2, 3])
-        labs = gen.rand_tree_labels(rng, n, depth=depth)
+        labs = product_labels(rng, n, depth) if rng.random() < 0.5 else None
+        if labs is None:
+            labs = gen.rand_tree_labels(rng, n, depth=depth)
         if len(labs) == n:
-            return {'k': 'ih', 'labels': labs, 'name': name, 'cls': 'IndexHierarchy', 'depth': depth}
+            s = {'k': 'ih', 'labels': labs, 'name': name, 'cls': 'IndexHierarchy', 'depth': depth}
+            s['route'] = rand_route(rng, s)
+            return s
         k = 'str'
     if k == 'ih':
         if rng.random() < 0.5:
@@ -137,7 +148,107 @@ def build_axis(spec, go=None):
     labels = [untok(t) for t in spec['labels']]
     if not labels:
         return cls.from_labels((), depth_reference=spec.get('depth', 2), name=name)
-    return cls.from_labels(labels, name=name)
+    ih = build_ih(cls, labels, name, spec.get('route', 'labels'))
+    got = [tok(tuple(x)) for x in ih]
+    if [hash_class(untok(t)) for t in got] != [hash_class(untok(t)) for t in spec['labels']] or ih.name != name and not (ih.name is None and name is None):
+        raise AssertionError(f'route {spec.get("route")} built {got} named {ih.name!r}, wanted {spec["labels"]} named {name!r}')
+    return ih
+
+
+# ------------------------------------------------------------------ construction routes of a hierarchy
+OUTER = [['a', 'b', 'c'], [1, 2, 3], ['x', 'y', 'z']]
+
+
+def product_labels(rng, n, depth):
+    """n = product of the level sizes: the labels of IndexHierarchy.from_product (None when n does not factor)"""
+    sizes = {(2, 1): [(1,)], (2, 2): [(2, 1), (1, 2)], (2, 3): [(3, 1), (1, 3)], (2, 4): [(2, 2), (2, 2), (4, 1)], (2, 5): [(5, 1), (1, 5)],
+             (2, 6): [(2, 3), (3, 2)], (3, 1): [(1, 1)], (3, 2): [(2, 1, 1), (1, 2, 1), (1, 1, 2)], (3, 4): [(2, 2, 1), (2, 1, 2), (1, 2, 2)],
+             (3, 3): [(3, 1, 1), (1, 1, 3)], (3, 6): [(3, 2, 1), (2, 1, 3), (1, 3, 2)], (3, 8): [(2, 2, 2)]}.get((depth, n))
+    if not sizes:
+        return None
+    shape = rng.choice(sizes)
+    if len(shape) != depth:
+        shape = tuple(shape) + (1,) * (depth - len(shape))
+    levels = []
+    for d, k in enumerate(shape):
+        pool = list(OUTER[d % 3])
+        rng.shuffle(pool)
+        levels.append(pool[:k])
+    return [tok(t) for t in itertools.product(*levels)]
+
+
+def level_values(labels):
+    """per depth the distinct values in order, if the labels are exactly their product (else None)"""
+    depth = len(labels[0])
+    levels = [list(dict.fromkeys(t[d] for t in labels)) for d in range(depth)]
+    return levels if list(itertools.product(*levels)) == [tuple(t) for t in labels] else None
+
+
+def routes_for(labels):
+    """every construction route that can produce exactly these label tuples"""
+    out = ['labels', 'tree', 'copy', 'deepcopy', 'select']
+    depth = len(labels[0])
+    if level_values(labels) is not None:
+        out += ['product', 'product', 'product', 'product_copy']
+    if depth == 2:
+        out.append('items')
+        groups = {}
+        for t in labels:
+            groups.setdefault(t[0], []).append(t[1])
+        if len({tuple(v) for v in groups.values()}) == 1:
+            out.append('items_shared')
+    if len({t[0] for t in labels}) == 1:
+        out.append('level_add')
+    return out
+
+
+def rand_route(rng, spec):
+    labels = [untok(t) for t in spec['labels']]
+    return rng.choice(routes_for(labels)) if labels else 'labels'
+
+
+def nest(labels):
+    """labels -> the tree form of from_tree ({outer: {..: [innermost, ...]}})"""
+    if len(labels[0]) == 1:
+        return [t[0] for t in labels]
+    out = {}
+    for t in labels:
+        out.setdefault(t[0], []).append(t[1:])
+    return {k: nest(v) for k, v in out.items()}
+
+
+def build_ih(cls, labels, name, route):
+    import static_frame as sf
+    go = cls.__name__.endswith('GO')
+    flat_cls = sf.IndexGO if go else sf.Index
+    if route not in routes_for(labels):
+        route = 'labels'   # a mutation made the stored route inapplicable
+    if route == 'labels':
+        return cls.from_labels(labels, name=name)
+    if route in ('product', 'product_copy'):
+        ih = cls.from_product(*level_values(labels), name=name)
+        return ih.copy() if route == 'product_copy' else ih
+    if route == 'tree':
+        return cls.from_tree(nest(labels), name=name)
+    if route in ('items', 'items_shared'):
+        groups = {}
+        for t in labels:
+            groups.setdefault(t[0], []).append(t[1])
+        shared = sf.Index(next(iter(groups.values()))) if route == 'items_shared' else None
+        ih = cls.from_index_items([(k, shared if shared is not None else sf.Index(v)) for k, v in groups.items()])
+        return ih.rename(name)
+    if route == 'copy':
+        return cls.from_labels(labels, name=name).copy()
+    if route == 'deepcopy':
+        return copy.deepcopy(cls.from_labels(labels, name=name))
+    if route == 'select':
+        extra = tuple('ZZZ' if isinstance(v, str) else 987 for v in labels[-1])
+        return cls.from_labels(list(labels) + [extra], name=name).iloc[:len(labels)].rename(name)
+    if route == 'level_add':
+        rest = [t[1:] for t in labels]
+        inner = flat_cls([t[0] for t in rest]) if len(rest[0]) == 1 else cls.from_labels(rest)
+        return inner.level_add(labels[0][0]).rename(name)
+    raise ValueError(route)
 
 
 def fresh_label(rng, spec):
@@ -152,7 +263,48 @@ def fresh_label(rng, spec):
     return None
 
 
+def reroute(rng, s):
+    """the two sides of a pair are built through independently drawn routes"""
+    if s['k'] == 'ih' and s['labels'] and rng.random() < 0.75:
+        s['route'] = rand_route(rng, s)
+    return s
+
+
 def mut_axis(rng, spec, m):
+    """One-point mutation `m` of an axis spec (None when not applicable); a hierarchy is re-routed"""
+    r = mut_axis_core(rng, spec, m)
+    if r is not None and m != 'route':
+        r = reroute(rng, r)
+    return r
+
+
+def mix_routes(rng, spec, p=0.5):
+    """independent construction routes for every hierarchy inside a (series / frame / bus) spec"""
+    if isinstance(spec, dict):
+        if spec.get('k') == 'ih' and spec.get('labels') and rng.random() < p:
+            spec['route'] = rand_route(rng, spec)
+        for v in spec.values():
+            mix_routes(rng, v, p)
+    elif isinstance(spec, list):
+        for v in spec:
+            mix_routes(rng, v, p)
+    return spec
+
+
+def ih_specs(spec, out=None):
+    out = [] if out is None else out
+    if isinstance(spec, dict):
+        if spec.get('k') == 'ih':
+            out.append(spec)
+        for v in spec.values():
+            ih_specs(v, out)
+    elif isinstance(spec, list):
+        for v in spec:
+            ih_specs(v, out)
+    return out
+
+
+def mut_axis_core(rng, spec, m):
     """One-point mutation `m` of an axis spec; None when not applicable."""
     s = copy.deepcopy(spec)
     n = len(s['labels'])
@@ -178,6 +330,28 @@ def mut_axis(rng, spec, m):
         d = len(t) - 1  # innermost component keeps the tree hierarchable
         t[d] = {str: 'NEW', int: 977}.get(type(t[d]), 'NEW')
         s['labels'][i] = tok(tuple(t))
+        return s
+    if m in ('label_inner_first', 'label_inner_middle', 'label_inner_last'):
+        # the innermost label of one row under the first / a middle / the last OUTER label
+        if n == 0 or s['k'] != 'ih':
+            return None
+        labs = [untok(l) for l in s['labels']]
+        outers = list(dict.fromkeys(t[0] for t in labs))
+        if m == 'label_inner_middle' and len(outers) < 3:
+            return None
+        if m == 'label_inner_last' and len(outers) < 2:
+            return None
+        o = {'label_inner_first': outers[0], 'label_inner_middle': outers[len(outers) // 2], 'label_inner_last': outers[-1]}[m]
+        i = rng.choice([k for k, t in enumerate(labs) if t[0] == o])
+        t = list(labs[i])
+        t[-1] = {str: 'NEW', int: 977}.get(type(t[-1]), 'NEW')
+        s['labels'][i] = tok(tuple(t))
+        return reroute(rng, s)
+    if m == 'route':
+        if n == 0 or s['k'] != 'ih':
+            return None
+        alts = [r for r in set(routes_for([untok(l) for l in s['labels']])) if r != s.get('route')]
+        s['route'] = rng.choice(sorted(alts))
         return s
     if m == 'label_outer':
         if n == 0 or s['k'] != 'ih':
@@ -232,7 +406,8 @@ def mut_axis(rng, spec, m):
     return None
 
 
-AXIS_MUTS = ['none', 'name', 'class', 'label', 'label_outer', 'swap', 'dtype', 'nan_label', 'shape']
+AXIS_MUTS = ['none', 'name', 'class', 'label', 'label_outer', 'swap', 'dtype', 'nan_label', 'shape',
+             'route', 'label_inner_first', 'label_inner_middle', 'label_inner_last']
 
 # ------------------------------------------------------------------ series specs
 def rand_series(rng, max_n=4, he=False):
@@ -350,7 +525,8 @@ def mut_series(rng, spec, m):
 
 
 SERIES_MUTS = ['none', 'cell', 'cell', 'cell_na', 'cell_na', 'eqval', 'dtype', 'name', 'class', 'shape',
-               'ix_name', 'ix_class', 'ix_label', 'ix_label_outer', 'ix_swap', 'ix_dtype', 'ix_nan_label']
+               'ix_name', 'ix_label', 'ix_label_outer', 'ix_swap', 'ix_dtype', 'ix_nan_label',
+               'ix_route', 'ix_label_inner_first', 'ix_label_inner_middle', 'ix_label_inner_last']
 
 # ------------------------------------------------------------------ frame specs
 def rand_frame(rng, max_rows=3, max_cols=4, he=False, min_rows=0, min_cols=0, name=None):
@@ -434,12 +610,14 @@ def mut_frame(rng, spec, m):
 
 
 FRAME_MUTS = ['none', 'cell', 'cell', 'cell', 'cell_na', 'cell_na', 'eqval', 'dtype', 'dtype', 'layout', 'layout', 'layout',
-              'name', 'class', 'shape_rows', 'shape_cols', 'ix_name', 'ix_class', 'ix_label', 'ix_label_outer', 'ix_swap',
-              'ix_dtype', 'ix_nan_label', 'cx_name', 'cx_label', 'cx_swap', 'cx_dtype', 'cx_label_outer', 'cx_nan_label']
+              'name', 'class', 'shape_rows', 'shape_cols', 'ix_name', 'ix_label', 'ix_label_outer', 'ix_swap',
+              'ix_dtype', 'ix_nan_label', 'cx_name', 'cx_label', 'cx_swap', 'cx_dtype', 'cx_label_outer', 'cx_nan_label',
+              'ix_route', 'ix_label_inner_first', 'ix_label_inner_middle', 'ix_label_inner_last',
+              'cx_route', 'cx_label_inner_first', 'cx_label_inner_middle', 'cx_label_inner_last']
 # mutations that keep default-option equality: used to build triples that exercise transitivity
-KEEP_MUTS = {'frame': ['none', 'layout', 'dtype', 'eqval', 'name', 'class', 'ix_name', 'ix_class', 'ix_dtype', 'cx_name', 'cx_dtype'],
-             'series': ['none', 'dtype', 'eqval', 'name', 'class', 'ix_name', 'ix_class', 'ix_dtype'],
-             'index': ['none', 'name', 'class', 'dtype'], 'ih': ['none', 'name', 'class', 'dtype'],
+KEEP_MUTS = {'frame': ['none', 'ix_route', 'cx_route', 'layout', 'dtype', 'eqval', 'name', 'class', 'ix_name', 'ix_dtype', 'cx_name', 'cx_dtype'],
+             'series': ['none', 'ix_route', 'dtype', 'eqval', 'name', 'class', 'ix_name', 'ix_dtype'],
+             'index': ['none', 'name', 'class', 'dtype'], 'ih': ['none', 'route', 'route', 'name', 'class', 'dtype'],
              'bus': ['none', 'name', 'fr_layout', 'fr_dtype', 'fr_class', 'fr_ix_name']}
 
 # ------------------------------------------------------------------ bus specs
@@ -490,7 +668,7 @@ def mut_bus(rng, spec, m):
     return None
 
 
-BUS_MUTS = ['none', 'name', 'label', 'swap', 'shape', 'fr_cell', 'fr_cell', 'fr_cell_na', 'fr_layout', 'fr_dtype', 'fr_class',
+BUS_MUTS = ['none', 'name', 'label', 'swap', 'shape', 'fr_ix_route', 'fr_ix_label_inner_first', 'fr_cell', 'fr_cell', 'fr_cell_na', 'fr_layout', 'fr_dtype', 'fr_class',
             'fr_ix_label', 'fr_ix_name', 'fr_cx_label', 'fr_shape_rows', 'fr_eqval']
 
 KINDS = {
@@ -541,6 +719,7 @@ def gen_pair(rng, kind, he=False, both_na=False):
         b = mut(rng, a, m)
         if b is None:
             continue
+        mix_routes(rng, b)
         return {'k': 'pair', 'kind': kind, 'specs': [a, b], 'mut': [m], 'he': he, 'both_na': both_na}
     return None
 
@@ -562,6 +741,8 @@ def gen_triple(rng, kind, he=False):
         c = mut(rng, b, m2)
         if c is None:
             continue
+        mix_routes(rng, b)
+        mix_routes(rng, c)
         return {'k': 'triple', 'kind': kind, 'specs': [a, b, c], 'mut': [m1, m2], 'he': he}
     return None
 
@@ -570,7 +751,7 @@ def cases(ctx):
     rng = ctx.rng('main')
     quick = ctx.tier == 'quick'
     kinds = ['frame'] * 5 + ['series'] * 3 + ['index'] * 2 + ['ih'] * 2 + ['bus'] * 2
-    n_pairs, n_triples = (4000, 1200) if quick else (30000, 6000)
+    n_pairs, n_triples = (2800, 800) if quick else (30000, 6000)
     # every mutation of every kind at least a few times (structured coverage), then random
     for kind, (_, mut, muts, _) in KINDS.items():
         for m in sorted(set(muts)):
@@ -994,11 +1175,21 @@ def evaluate(ctx, c, outs):
         ctx.count('zero_column_frames')
     for m in c['mut']:
         ctx.count(f'mut_{kind}_{m}')
+    for sp in c['specs']:
+        for ih in ih_specs(sp):
+            if ih['labels']:
+                ctx.count(f'ih_route_{ih.get("route", "labels")}_depth{len(untok(ih["labels"][0]))}')
+    routes = [tuple(x.get('route') for x in ih_specs(sp)) for sp in c['specs']]
+    if any(r and r != routes[0] for r in routes[1:]):
+        ctx.count('ih_routes_mixed_across_sides')
     try:
         objs = [build(kind, s) for s in c['specs']]
         copy0 = build(kind, c['specs'][0])
+    except AssertionError:
+        raise   # a construction route that does not deliver the requested labels: never hide it
     except Exception as ex:
         ctx.count('unbuildable_spec')
+        ctx.count(f'unbuildable_{type(ex).__name__}')
         return []
     conts = [CONTENT[kind](o) for o in objs]
     pairs = [(0, 1)] if c['k'] == 'pair' else [(0, 1), (1, 2), (0, 2)]
